@@ -95,7 +95,7 @@ fn bound(api: Api, strat: Strat, include: bool, when: When, n: usize) -> usize {
     }
 }
 
-fn run(c: &Case, api: Api, order: Order, strat: Strat, include: bool, when: When, seed: u64) -> (Vec<Ev>, Option<Vec<usize>>, usize) {
+fn run(c: &Case, api: Api, order: Order, strat: Strat, include: bool, when: When, seed: u64) -> (Vec<Ev>, Option<Vec<usize>>, usize, Option<bool>) {
     let _ = fn_graph::verif_hooks::event_log_take();
     let (tx, rx) = mpsc::channel::<InterruptSignal>(4);
     let ctx = Rc::new(Ctx { trace: RefCell::new(vec![]), tx, when, yields: RefCell::new(Lcg(seed)) });
@@ -103,13 +103,15 @@ fn run(c: &Case, api: Api, order: Order, strat: Strat, include: bool, when: When
     let o = opts(order, strat, include, rx);
     let mut g = build(c);
     let cx = ctx.clone();
+    let finished: std::cell::Cell<Option<bool>> = std::cell::Cell::new(None);
+    let fin = &finished;
     let processed: Option<Vec<FnId>> = futures::executor::block_on(async {
         match api {
-            Api::Fold => Some(g.fold_async_with((), o, |(), f| { let (c, id) = (cx.clone(), f.id); async move { let k = c.on_start(id); YieldN(k).await; c.on_end(id); }.boxed_local() }).await.fn_ids_processed),
-            Api::FoldMut => Some(g.fold_async_mut_with((), o, |(), f| { let (c, id) = (cx.clone(), f.id); async move { let k = c.on_start(id); YieldN(k).await; c.on_end(id); }.boxed_local() }).await.fn_ids_processed),
+            Api::Fold => { let oc = g.fold_async_with((), o, |(), f| { let (c, id) = (cx.clone(), f.id); async move { let k = c.on_start(id); YieldN(k).await; c.on_end(id); }.boxed_local() }).await; fin.set(Some(oc.state == fn_graph::StreamOutcomeState::Finished)); Some(oc.fn_ids_processed) },
+            Api::FoldMut => { let oc = g.fold_async_mut_with((), o, |(), f| { let (c, id) = (cx.clone(), f.id); async move { let k = c.on_start(id); YieldN(k).await; c.on_end(id); }.boxed_local() }).await; fin.set(Some(oc.state == fn_graph::StreamOutcomeState::Finished)); Some(oc.fn_ids_processed) },
             Api::TryFold => g.try_fold_async_with((), o, |(), f| { let (c, id) = (cx.clone(), f.id); async move { let k = c.on_start(id); YieldN(k).await; c.on_end(id); Ok::<(), ()>(()) }.boxed_local() }).await.ok().map(|x| x.fn_ids_processed),
-            Api::ForEach => Some(g.for_each_concurrent_with(None, o, |f| { let (c, id) = (cx.clone(), f.id); async move { let k = c.on_start(id); YieldN(k).await; c.on_end(id); } }).await.fn_ids_processed),
-            Api::ForEachMut => Some(g.for_each_concurrent_mut_with(None, o, |f| { let (c, id) = (cx.clone(), f.id); async move { let k = c.on_start(id); YieldN(k).await; c.on_end(id); } }).await.fn_ids_processed),
+            Api::ForEach => { let oc = g.for_each_concurrent_with(None, o, |f| { let (c, id) = (cx.clone(), f.id); async move { let k = c.on_start(id); YieldN(k).await; c.on_end(id); } }).await; fin.set(Some(oc.state == fn_graph::StreamOutcomeState::Finished)); Some(oc.fn_ids_processed) },
+            Api::ForEachMut => { let oc = g.for_each_concurrent_mut_with(None, o, |f| { let (c, id) = (cx.clone(), f.id); async move { let k = c.on_start(id); YieldN(k).await; c.on_end(id); } }).await; fin.set(Some(oc.state == fn_graph::StreamOutcomeState::Finished)); Some(oc.fn_ids_processed) },
             Api::TryForEach => Some(match g.try_for_each_concurrent_with(None, o, |f| { let (c, id) = (cx.clone(), f.id); async move { let k = c.on_start(id); YieldN(k).await; c.on_end(id); Ok::<(), ()>(()) } }).await { Ok(x) => x, Err((x, _)) => x }.fn_ids_processed),
             Api::TryForEachMut => Some(match g.try_for_each_concurrent_mut_with(None, o, |f| { let (c, id) = (cx.clone(), f.id); async move { let k = c.on_start(id); YieldN(k).await; c.on_end(id); Ok::<(), ()>(()) } }).await { Ok(x) => x, Err((x, _)) => x }.fn_ids_processed),
             Api::Stream => {
@@ -131,11 +133,13 @@ fn run(c: &Case, api: Api, order: Order, strat: Strat, include: bool, when: When
         Some(p) => log[p..].iter().filter(|e| matches!(e, fn_graph::verif_hooks::HookEvent::Dequeued(_))).count(),
         None => 0,
     };
-    (t, processed.map(|p| { let mut v: Vec<usize> = p.iter().map(|i| i.index()).collect(); v.sort(); v }), dequeued_after)
+    (t, processed.map(|p| { let mut v: Vec<usize> = p.iter().map(|i| i.index()).collect(); v.sort(); v }), dequeued_after, finished.get())
 }
 
 fn main() {
     let literal = std::env::args().any(|a| a == "--literal");
+    // `c08_interrupt C09`: only the outcome oracle of C09 under interruption (state Finished iff every function was processed)
+    let c09_only = std::env::args().any(|a| a == "C09");
     let seed = std::env::var("VERIF_SEED").ok().and_then(|s| s.parse().ok()).unwrap_or(1u64);
     let mut rng = Lcg(seed.wrapping_mul(1099511628211) + 7);
     let mut cases = vec![
@@ -162,7 +166,7 @@ fn main() {
                 let (tx, rx) = std::sync::mpsc::channel();
                 let s2 = seed ^ (ci as u64 * 31 + runs as u64);
                 let h = std::thread::spawn(move || { let r = std::panic::catch_unwind(std::panic::AssertUnwindSafe(|| run(&cc, api, order, strat, include, when, s2))); let _ = tx.send(()); r });
-                let (trace, processed, dequeued_after) = match rx.recv_timeout(std::time::Duration::from_secs(10)) {
+                let (trace, processed, dequeued_after, finished) = match rx.recv_timeout(std::time::Duration::from_secs(10)) {
                     Ok(()) => match h.join().unwrap() { Ok(x) => x, Err(_) => { println!("VIOLATION (C08: panic) {label}"); std::process::exit(1); } },
                     Err(_) => { println!("VIOLATION (C08: the call did not return within 10 s) {label}"); std::process::exit(1); }
                 };
@@ -172,6 +176,10 @@ fn main() {
                 // the stream API hands the items to the caller: there a start IS the yielded item
                 let after = if literal || api == Api::Stream { first_polled_after } else { dequeued_after };
                 let b = bound(api, strat, include, when, c.n);
+                if let (Some(fin), Some(p)) = (finished, &processed) {
+                    if fin != (p.len() == c.n) { println!("VIOLATION (C09: state is {} although {} of {} functions were processed) {label} trace={trace:?}", if fin { "Finished" } else { "not Finished" }, p.len(), c.n); std::process::exit(1); }
+                }
+                if c09_only { continue; }
                 if trace.contains(&Ev::Signal) && after > b { println!("VIOLATION (C08: {after} functions started after the signal, bound {b}) {label} trace={trace:?}"); std::process::exit(1); }
                 let mut s_sorted = started.clone(); s_sorted.sort();
                 let mut e_sorted = ended.clone(); e_sorted.sort();
